@@ -218,6 +218,32 @@ fn judge(
             }
         }
         End::Hang => {
+            drop(st);
+            // Real threads: one expired watchdog is never a verdict. For a property with a liveness
+            // clause the same case is executed again (twice, fresh threads): a tiny program that
+            // does not finish within the watchdog three times out of three is a systematic hang.
+            if p.liveness && !crate::rt::SCHED {
+                let mut hangs = 1;
+                for _ in 0..2 {
+                    let mut again = None;
+                    execute_many(scn, std::slice::from_ref(sched), &mut |_, h2| {
+                        again = Some(h2.end.clone());
+                        true
+                    });
+                    if again == Some(End::Hang) {
+                        hangs += 1;
+                    }
+                }
+                if hangs == 3 {
+                    // no shrinking for hangs (every candidate would cost three watchdogs)
+                    abort.lock().unwrap().get_or_insert("HANG-VIOLATION".to_string());
+                    return Err(format!(
+                        "hang on real threads: 3 of 3 executions of this case did not finish within the watchdog. {}",
+                        crate::props::common::blocked_summary(scn, h)
+                    ));
+                }
+            }
+            let mut st = stats.lock().unwrap();
             *st.inconclusive_why.entry("watchdog".into()).or_default() += 1;
             st.inconclusive += 1;
             drop(st);
@@ -387,6 +413,9 @@ pub fn run_profile(p: &'static Profile, cfg: &RunCfg) -> Report {
     let stats = std::mem::take(&mut *stats.lock().unwrap());
     let failures = std::mem::take(&mut *failures.lock().unwrap());
     let mut aborted = abort.lock().unwrap().clone();
+    if aborted.as_deref() == Some("HANG-VIOLATION") {
+        aborted = None; // reported as a violation through `failures`
+    }
     if aborted.is_none() && stats.evaluations > 0 && stats.inconclusive * 20 > stats.evaluations {
         aborted = Some(format!("{} of {} evaluations were inconclusive (> 5 %): {:?}", stats.inconclusive, stats.evaluations, stats.inconclusive_why));
     }
